@@ -377,6 +377,17 @@ def run(tier):
     # numbers of other types than int / float (numpy scalars, Fraction, Decimal) given to the numeric attributes: never
     # cut to fit an integer code; what is accepted decodes to the same number
     convert.run_numberlike(chk, model, bres, rng('C06', 'number-like'), 800 if tier == 'quick' else 8000, ATTRS)
+    # the fixed-width codes as they are written for channel samples: whole files (all dtypes, scalar / one-column /
+    # wider 2-D channels, native / big-endian / strided / Fortran-ordered sources), every slot of every frame data record
+    # decoded by the strict reader under the code its channel declares
+    from harness import wholefile as wf
+    runs = wf.execute(list(wf.generate('C06', tier, 60, 500, stream='frame-values')), model, bres, chk, stream='frame-values')
+    good = []
+    for r in runs:
+        chk.case('frame-values', nontrivial_key=('fv', r.index) if r.res['status'] == 'ok' else None, sample=wf.sample_of(r))
+        if r.res['status'] == 'ok' and bres.ok and wf.oracle_readable(r, chk, 'frame-values'):
+            good.append(r)
+    wf.run_frames_oracle(good, model, bres, chk)
     chk.exhaustive = False
     return finish(chk, bres, THEOREMS,
                   partial_note='str() of non-str values given to IDENT/ASCII is CPython behaviour outside the model (the '
